@@ -1002,9 +1002,12 @@ bool TypeUtilityParser::detectCircularReference(
         }
     }
 
-    // バックトラック
+    // バックトラック: 経路からは外すが visited には残す。
+    // ここから struct_name へ戻る経路は（現在の経路上の構造体を通るもの
+    // 以外）存在しないと確定したので、別のメンバー経由で再び到達しても
+    // 調べ直す必要はない。消してしまうと、メンバーを共有する定義
+    // （ひし形）で同じ部分グラフを指数回たどることになる。
     path.pop_back();
-    visited.erase(normalized_type);
 
     return false;
 }
